@@ -16,6 +16,11 @@ Theorem reject_break_outside_loop f s :
   ctype s = TT_BREAK -> p_loops s = O -> p_command (S f) s = PErr (cline s).
 Proof. intros Ht Hl. cbn [p_command]. rewrite Ht, Hl. reflexivity. Qed.
 
+(* `return` outside every routine *)
+Theorem reject_return_outside_routine f s :
+  ctype s = TT_RETURN -> p_in_routine s = false -> p_command (S f) s = PErr (cline s).
+Proof. intros Ht Hr. cbn [p_command]. rewrite Ht, Hr. reflexivity. Qed.
+
 (* assigning to a macro *)
 Theorem reject_assign_to_macro f s :
   ctype s = TT_ASSIGN -> ctype (next s) = TT_NAME -> sym_is_macro (next s) (ctext (next s)) = true ->
